@@ -292,6 +292,12 @@ func init() {
 								continue
 							}
 							lp, err := b.LocalPathForRegistrySource(rs, v)
+							// the two other entry points to the same lookup must agree with it
+							lp2, err2 := b.LocalPathForFinalRegistrySource(rs.Versioned(v))
+							lp3, err3 := b.LocalPathForSource(rs.Versioned(v))
+							if lp2 != lp || lp3 != lp || (err == nil) != (err2 == nil) || (err == nil) != (err3 == nil) {
+								fail(fmt.Sprintf("LocalPathForRegistrySource, LocalPathForFinalRegistrySource and LocalPathForSource disagree for %s@%s: %q / %q / %q", regStr, v, lp, lp2, lp3))
+							}
 							qs = append(qs, "lg~"+X(rp.String())+"~"+X(v.String())+"~"+X(sub))
 							if err != nil {
 								answers = append(answers, "err")
